@@ -643,6 +643,10 @@ class Ev:
         return self.binop(n.op, a, b, n, mod)
 
     def binop(self, op, a, b, n=None, mod=None):
+        if hasattr(a, "sym_binop"):
+            return a.sym_binop(self, op, b, False, n, mod)
+        if hasattr(b, "sym_binop"):
+            return b.sym_binop(self, op, a, True, n, mod)
         if isinstance(a, Masked):
             a = a.val
         if isinstance(b, Masked):
@@ -1541,6 +1545,10 @@ class Ev:
             return r
         short = name.split(".", 1)[1] if name.startswith("builtins.") else name
         fn = LIB.get(name) or LIB.get(short)
+        if fn is None and getattr(self, "lenient", False):
+            # effect rules (which files are opened, which objects are stored to) do not need the value of an unknown
+            # library call: it is an opaque value; anything that then *needs* a constant (a path, a branch) still fails closed
+            return Opaque(f"{name}(...)")
         if fn is None:
             raise self.err(f"call to {name} has no transfer function (T-LIB)", n, mod)
         bad = set(kwargs) - set(getattr(fn, "kw", ()) or ()) if getattr(fn, "kw", ()) is not None else set()
@@ -1917,6 +1925,8 @@ def lib_str(ev, a, k, n, mod):
         return str(int(v))
     if isinstance(v, str):
         return v
+    if hasattr(v, "sym_str"):
+        return v.sym_str()
     raise ev.err("str() of a non-constant", n, mod)
 
 
@@ -2064,6 +2074,24 @@ def lib_zeros(ev, a, k, n, mod):
     if not const:
         return sp.Integer(0)
     return ArrV(batch, const, sp.Integer(0))
+
+
+UNINIT = sp.Symbol("UNINITIALISED_MEMORY")
+
+
+def lib_empty(ev, a, k, n, mod):
+    """numpy.empty: whatever the allocator hands out - every cell that is not written later stays UNINITIALISED_MEMORY"""
+    batch, const = _shape_items(ev, a[0], n, mod)
+    if not const:
+        return UNINIT
+    return ArrV(batch, const, UNINIT)
+
+
+def lib_empty_like(ev, a, k, n, mod):
+    x = a[0]
+    if isinstance(x, ArrV):
+        return ArrV(x.batch, x.shape, UNINIT)
+    return UNINIT
 
 
 def lib_ones(ev, a, k, n, mod):
@@ -2736,8 +2764,8 @@ def lib_minmax2(name):
 
 LIB.update({"numpy.clip": lib_clip, "ndarray.clip": lib_clip, "numpy.maximum": lib_minmax2("MAXIMUM"), "numpy.minimum": lib_minmax2("MINIMUM"),
             "numpy.fmax": lib_minmax2("MAXIMUM"), "numpy.fmin": lib_minmax2("MINIMUM")})
-LIB.update({"numpy.zeros_like": lib_zeros_like, "numpy.ones_like": lib_ones_like, "numpy.empty_like": lib_zeros_like, "numpy.eye": lib_eye,
-            "numpy.identity": lib_eye, "numpy.empty": lib_zeros})
+LIB.update({"numpy.zeros_like": lib_zeros_like, "numpy.ones_like": lib_ones_like, "numpy.empty_like": lib_empty_like, "numpy.eye": lib_eye,
+            "numpy.identity": lib_eye, "numpy.empty": lib_empty})
 
 
 def lib_dict_clear(ev, a, k, n, mod):
